@@ -73,6 +73,9 @@ def run(ctx):
     # few cells, control codes, re-deliveries at different levels: pairs whose two cells hold different levels
     # (seed C20-b was missed without this stream)
     streams.append(("textfew", props.text_stream(ctx.seed + 3, 8000 if q else 200000, few_cells=True, toggles=True), False))
+    # RT scenarios over all thresholds and error levels, text in the first or only in the last segment, A/B switches:
+    # anything that depends on the width of a cell (wchar_t or one byte) shows at the ends of the buffers
+    streams.append(("rtlevels", gen.sweep_rt_levels(4 if q else 1, ctx.seed) + gen.sweep_rt_sums(), True))     # no byte >= 0x7F in it: compared completely
     for sname, ops, ascii_only in streams:
         # valid strings only (malformed strings are C14's business and identical across builds anyway)
         runs = {}
@@ -103,10 +106,9 @@ def run(ctx):
             # the default build itself deviates on this stream: whatever the cause is, it is not specific to a build
             # configuration (the property it breaks is reported by that property's check); a general defect shows at
             # different ops in different builds, which must not be mistaken for a build-specific one
-            ctx.notes.append("stream %s: the default build deviates from the model / fails %s; build-specific comparison skipped" %
+            ctx.notes.append("stream %s: the default build deviates from the model / fails %s; comparison of the other builds with the model skipped, cross-build twins still run" %
                              (sname, sorted(set(m["prop"] for m in reps["u"]["mon"]))[:4]))
-            continue
-        for cfg in ("n", "uh", "nh"):
+        for cfg in (() if (reps["u"]["div"] or reps["u"]["mon"]) else ("n", "uh", "nh")):
             bad = [d for d in reps[cfg]["div"] if (d["op"], d["comp"]) not in base_div]
             badm = [m for m in reps[cfg]["mon"] if (m["op"], m["prop"]) not in base_mon]
             if badm:
